@@ -22,6 +22,9 @@ func (r readWrapper) Read(p []byte) (n int, err error) {
 type bufWriter struct {
 	buf []byte
 	w   io.Writer
+
+	// n is how much of buf the last Write call got onto w.
+	n int
 }
 
 func (w *bufWriter) Write(p []byte) (n int, err error) {
@@ -32,7 +35,10 @@ func (w *bufWriter) Write(p []byte) (n int, err error) {
 	w.buf = w.buf[:len(p)]
 	copy(w.buf, p)
 
-	return w.w.Write(w.buf)
+	n, err = w.w.Write(w.buf)
+	w.n = n
+
+	return n, err
 }
 
 func (r *Repo) Store(_ context.Context, path string, content io.Reader) (err error) {
@@ -46,10 +52,12 @@ func (r *Repo) Store(_ context.Context, path string, content io.Reader) (err err
 
 	defer func() {
 		if errors.Is(err, os.ErrNotEnoughSpace) {
+			// The file already holds the first w.n bytes of the failed chunk
+			// (partial write): only the rest of it must be replayed.
 			err = model.NotEnoughSpaceError{
 				Err:    err,
 				Start:  f,
-				Middle: bytes.NewReader(w.buf),
+				Middle: bytes.NewReader(w.buf[w.n:]),
 				End:    content,
 			}
 		} else {
